@@ -35,6 +35,7 @@ def shards(tier, seed):
             continue
         for L in ((8,) if tier == "quick" else (6, 8)):
             out.append(dict(name="%s/L%d" % (sk, L), kind="arch", sk=sk, L=L, weight=(16 ** min(sk.count("A"), 2)) * 10))
+    out.append(dict(name="long/L69536", kind="long", L=69536, weight=3000))
     out.append(dict(name="affine", kind="affine", weight=50))
     out.append(dict(name="near_coincident", kind="near", weight=100))
     return out
@@ -87,6 +88,38 @@ def check_arch(rec, name, model, X, R, seed, stats, nested_mode=0):
     stats["ok"] += 1
 
 
+def override_then_default(rec, name, model, X, R, seed, stats):
+    """call history: a call that overrides the built-in rules of this model's activation types, then the default call."""
+    from tangermeme.deep_lift_shap import deep_lift_shap
+    import warnings
+    types = {type(m) for m in model.modules() if type(m).__name__ in D.ACTS}
+    if not types:
+        return
+    with warnings.catch_warnings():
+        warnings.simplefilter("ignore")
+        call(deep_lift_shap, model, X[:2], references=R[:2, :2], device="cpu", warning_threshold=1e9,
+             additional_nonlinear_ops={t: (lambda module, grad_input, grad_output: grad_input) for t in types})
+    rec.count("programs_after_override")
+    check_arch(rec, name + "|after_override", model, X, R, seed, stats)
+
+
+def run_long(rec, sh, tier, seed):
+    """Sequences longer than 2^16 positions, not a multiple of it."""
+    L = sh["L"]
+    X, R = D.inputs(L, seed)
+    X, R = X[:2], R[:2, 2:]
+    stats = dict(calls=0, ok=0, skipped_unbuildable=0, excluded_band=0, derivative_entries=0)
+    model = D.build("CAF", ("ReLU",), ((3, 1, 1, 1),), 2, L, 2, seed % 3)
+    with torch.no_grad():
+        model[-1].weight.mul_(64.0 / L)
+    rec.case(1, 1)
+    rec.count("programs")
+    check_arch(rec, "CAF|ReLU|long|w%d" % (seed % 3), model, X, R, seed, stats)
+    for k, v in stats.items():
+        rec.count(k, v)
+    rec.sample(dict(kind="long", L=L))
+
+
 def run_arch(rec, sh, tier, seed):
     sk, L = sh["sk"], sh["L"]
     X, R = D.inputs(L, seed)
@@ -109,6 +142,8 @@ def run_arch(rec, sh, tier, seed):
             if n % 3 == 0 and len(model) >= 3:
                 rec.count("programs_nested")
                 check_arch(rec, "%s|w%d|nested%d" % (name, ws, 1 + (n // 3) % 2), model, X, R, seed, stats, nested_mode=1 + (n // 3) % 2)
+            if n % 4 == 1:
+                override_then_default(rec, "%s|w%d" % (name, ws), model, X, R, seed, stats)
     for k, v in stats.items():
         rec.count(k, v)
     rec.sample(dict(skeleton=sk, L=L, architectures=n, example=archs[len(archs) // 2][0] if archs else None))
@@ -187,6 +222,8 @@ def run_shard(sh, tier, seed):
     rec = Recorder(PID, sh["name"])
     if sh["kind"] == "arch":
         run_arch(rec, sh, tier, seed)
+    elif sh["kind"] == "long":
+        run_long(rec, sh, tier, seed)
     elif sh["kind"] == "affine":
         run_affine(rec, tier, seed)
     else:
@@ -198,7 +235,15 @@ def replay(v):
     from mc.props.c04 import _parse
     c = v["case"]
     rec = Recorder(PID, "replay")
-    if "|" in c.get("arch", ""):
+    if "|long|" in c.get("arch", ""):
+        run_long(rec, dict(L=c["L"]), "quick", c.get("weights_seed", 0))
+    elif "|after_override" in c.get("arch", ""):
+        sk, acts, convs, pool, ws = _parse(c["arch"])
+        X, R = D.inputs(c["L"], c.get("weights_seed", 0))
+        model = D.build(sk, acts, convs, pool, c["L"], 2, ws)
+        override_then_default(rec, c["arch"].replace("|after_override", ""), model, X, R, c.get("weights_seed", 0),
+                              dict(calls=0, ok=0, skipped_unbuildable=0, excluded_band=0, derivative_entries=0))
+    elif "|" in c.get("arch", ""):
         sk, acts, convs, pool, ws = _parse(c["arch"])
         X, R = D.inputs(c["L"], c.get("weights_seed", 0))
         model = D.build(sk, acts, convs, pool, c["L"], 2, ws)
